@@ -19,6 +19,7 @@ func checkC13(c *an.Ctx) {
 	c.Rule("C13.3", "expiry is fatal (E2): rows 'not an exit status' of the job-walk table (with and without allow_failure) and the hook tables; Execute returns the interpreter's error unchanged, so an expired deadline cannot be taken for an exit status; the interpreter runs programs with the library's default exec handler (option table of C12.5), which reports a program killed at the deadline with the context's error, not with a status")
 	c.Rule("C13.4", "decoding (E5): the one mapstructure decoder has StringToTimeDurationHookFunc among its hooks; taskDefinition.Timeout is *time.Duration and buildTask copies it unchanged")
 	c.Rule("C13.5", "the configured timeout is not rewritten (E4): Task.Timeout is a pointer, which a value copy of the task shares with the original; no store in the module writes through a pointer loaded from a Task.Timeout field — a per-stage override written that way replaces the task's own timeout for every later use of the task")
+	c.Rule("C13.6", "Execute returns when the interpreter does (E8): besides the interpreter call nothing synchronously reachable from Execute in the module can wait without bound — every channel operation, Cond.Wait or polling loop has an unconditional waker or waits for a goroutine the function started itself that signals on every path; a hand-off to a watchdog goroutine that may already have gone keeps a timed-out command's Execute, and the task, from ever being reported")
 	c.NotDecided = append(c.NotDecided, "every timing aspect (how soon the process dies, children ignoring SIGINT, command substitutions swallowing the deadline): all inside mvdan.cc/sh")
 	p := c.P
 	r := resolveRunner(c, "C13.0")
@@ -120,6 +121,20 @@ func checkC13(c *an.Ctx) {
 	// … nor can the interpreter hand it back as one: programs are run by the library's default handler, which
 	// reports a killed program with the context's error (a handler of the module could turn it into a status)
 	interpOptions(c, "C13.3")
+	// C13.6
+	{
+		before := len(c.Obs)
+		boundedWaitsOpt(c, "C13.6", []*ssa.Function{ex}, "Execute", waitOpts{polls: true, onlyChans: true, accepted: func(in ssa.Instruction) string { return locallyWoken(p, in) }})
+		n := 0
+		for _, o := range c.Obs[before:] {
+			if o.Rule == "C13.6" {
+				n++
+			}
+		}
+		if n == 0 {
+			c.OK("C13.6", an.Short(ex)+":channel-waits", ex.Pos(), "no channel operation, Cond.Wait or polling loop is synchronously reachable from Execute in the module")
+		}
+	}
 	// C13.5
 	{
 		n, bad := 0, false
